@@ -129,3 +129,14 @@ Proof.
   - intro Hin. apply in_app_or in Hin. destruct Hin as [Hin|Hin]; [contradiction|]. exact (Hd a (or_introl eq_refl) Hin).
   - apply IH; [assumption | assumption|]. intros x Hx1 Hx2. exact (Hd x (or_intror Hx1) Hx2).
 Qed.
+
+Lemma Forall_firstn' : forall {A} (P : A -> Prop) n l, Forall P l -> Forall P (firstn n l).
+Proof.
+  intros A P n. induction n as [|n IH]; intros l H; [constructor|]. destruct l as [|a l]; [constructor|].
+  inversion H; subst. cbn [firstn]. constructor; [assumption | apply IH; assumption].
+Qed.
+Lemma Forall_skipn' : forall {A} (P : A -> Prop) n l, Forall P l -> Forall P (skipn n l).
+Proof.
+  intros A P n. induction n as [|n IH]; intros l H; [exact H|]. destruct l as [|a l]; [constructor|].
+  inversion H; subst. cbn [skipn]. apply IH. assumption.
+Qed.
